@@ -2,7 +2,7 @@
 import numpy as np
 import impl, cases
 from gen import grid, data, unc, material
-from .common import tolist, Unchanged, keyword_call_differs
+from .common import tolist, Unchanged, keyword_call_differs, exceeds
 
 LEAN = "PystogVerif.Props.C09"
 RSP, QSP = ["g", "G", "GK"], ["F", "S", "FK", "DCS"]
@@ -72,7 +72,7 @@ def evaluate(case):
                 for k, (a, b) in enumerate(zip(ref, back)):
                     b = np.asarray(b, dtype=float)
                     sc = max(1.0, float(np.abs(a).max()))
-                    if a.shape != b.shape or np.abs(a - b).max() > 1e-8 * sc:
+                    if a.shape != b.shape or exceeds(np.abs(a - b).max(), 1e-8 * sc):
                         fails.append(f"{X}_using_{Y}: output '{names[k]}' is not the conversion of g_using_F's "
                                      f"(max diff {np.abs(a - b).max() if a.shape == b.shape else 'shape'!s:.12})")
                         break
